@@ -399,9 +399,13 @@ def ans_lookup(chk, F):
                 lits.append(x["lit"]["v"])
         ret = [x for x in hir_walk(e["then"]) if x.get("k") == "Ret"]
         fields = [x.get("name") for x in hir_walk(e["then"]) if x.get("k") == "Field"]
-        binops = [x["op"] for x in hir_walk(e["cond"]) if x.get("k") == "Binary"]
-        ok = sorted(lits) == ["ANS", "_", "ans"] and len(ret) == 1 and fields == ["previous_result"] and \
-            sorted(binops) == ["Eq", "Eq", "Eq", "Or", "Or"] and e.get("else") is None
+        # the condition is read by what it accepts (`==` chain, `[..].contains(&name)`, a const table, `matches!`), not by its shape
+        import shared_rules
+        acc = shared_rules.accepted_literals(F, CORE, e["cond"])
+        lits = sorted(acc[0]) if acc else lits
+        the_name = h["params"][1].get("name") if len(h["params"]) > 1 else None
+        ok = acc is not None and sorted(acc[0]) == ["ANS", "_", "ans"] and acc[1] == the_name and len(ret) == 1 \
+            and fields == ["previous_result"] and e.get("else") is None
     if not ok:
         # the same decision as a match on the name: `match name { "ans" | "ANS" | "_" => self.previous_result.clone(), _ => .. }`
         lits = []
